@@ -168,6 +168,84 @@ func (r *Run) verifyHelpers(ld *Loaded, filter func(c *Contract) bool) {
 		}
 		wg.Wait()
 		res := r.discharge(vcs)
+		// Loop invariants are proof artefacts, not the property.  A contract with
+		// loops that is not discharged is retried (1) without its [aux] invariants
+		// (statements about the loop's temporaries, which a harmless rewrite of
+		// the loop invalidates) and, if then only maintenance goals of invariants
+		// not labelled [property] fail, (2) with the loops unrolled instead: a
+		// complete unrolling proves, a bounded one can only refute with a replay.
+		{
+			byC := map[*Contract][]int{}
+			for i, c := range owners {
+				byC[c] = append(byC[c], i)
+			}
+			for c, idx := range byC {
+				if len(c.Loops) == 0 {
+					continue
+				}
+				bad := func() (any bool, onlyMaint bool) {
+					onlyMaint = true
+					for _, i := range idx {
+						o := res[i]
+						if o.Status == "discharged" {
+							continue
+						}
+						any = true
+						if o.Status != "failed" || len(o.Failed) == 0 {
+							onlyMaint = false
+							continue
+						}
+						for _, f := range o.Failed {
+							if !c.maintenanceGoal(f) {
+								onlyMaint = false
+							}
+						}
+					}
+					return
+				}
+				retry := func(mode int, note string) {
+					v, err := ld.verifyContract(c, true, mode)
+					if err != nil {
+						return
+					}
+					nr := r.discharge(v)
+					for _, o := range nr {
+						if o.Note == "" {
+							o.Note = note
+						}
+					}
+					// replace this contract's results
+					var keepV []*VC
+					var keepO []*Contract
+					var keepR []*OblResult
+					for i := range res {
+						if owners[i] != c {
+							keepV, keepO, keepR = append(keepV, vcs[i]), append(keepO, owners[i]), append(keepR, res[i])
+						}
+					}
+					for i := range nr {
+						keepV, keepO, keepR = append(keepV, v[i]), append(keepO, c), append(keepR, nr[i])
+					}
+					vcs, owners, res = keepV, keepO, keepR
+					idx = nil
+					for i, cc := range owners {
+						if cc == c {
+							idx = append(idx, i)
+						}
+					}
+				}
+				if any, _ := bad(); any && c.hasAux() {
+					retry(1, "auxiliary loop invariants dropped (they no longer hold for the loop as written)")
+					if any, _ := bad(); !any {
+						r.Stale = append(r.Stale, c.Key+": [aux] loop invariant is stale; verified without it")
+					}
+				}
+				if any, onlyMaint := bad(); any && onlyMaint {
+					r.Stale = append(r.Stale, c.Key+": loop invariant not maintained by the loop as written; loops unrolled instead")
+					retry(2, "loop contract ignored (invariant not maintained): loops unrolled")
+				}
+			}
+		}
 		ok := map[*Contract]bool{}
 		for _, c := range owners {
 			ok[c] = true
